@@ -125,6 +125,16 @@ pub fn thrift_docs() -> Vec<SDoc> {
                 ]),
             },
             Decl { name: "Nothing".into(), kind: DeclKind::Struct(vec![]) },
+            // structs as set elements and map keys
+            Decl {
+                name: "Keyed".into(),
+                kind: DeclKind::Struct(vec![
+                    f(1, "ps", Default, set(named(1, "Point"))),
+                    f(2, "pm", Default, map(named(1, "Point"), STy::I32)),
+                    f(3, "lps", Optional, list(set(named(1, "Point")))),
+                    f(4, "tail", Default, STy::I16),
+                ]),
+            },
             Decl {
                 name: "Svc".into(),
                 kind: DeclKind::Service(
@@ -196,9 +206,40 @@ pub fn thrift_docs() -> Vec<SDoc> {
                     fd(7, "by_exp", Optional, map(STy::String, STy::Double), Lit::Map(vec![(Lit::Str("h".into()), Lit::Double("6.62607015e-34".into()))])),
                 ]),
             },
+            // member values that start at 0, end at n-1 and are not ascending in between
+            Decl { name: "Perm".into(), kind: DeclKind::Enum(vec![("LOW".into(), 0), ("HIGH".into(), 2), ("MID".into(), 1), ("MAX".into(), 3)]) },
+            // more fields than any size / arity threshold a generator might special-case
+            Decl {
+                name: "Wide".into(),
+                kind: DeclKind::Struct(
+                    (1..=40i16)
+                        .map(|i| match i % 5 {
+                            0 => f(i, &format!("w{}", i), Optional, STy::String),
+                            1 => f(i, &format!("w{}", i), Default, STy::I32),
+                            2 => f(i, &format!("w{}", i), Optional, STy::Bool),
+                            3 => f(i + 1000, &format!("w{}", i), Default, STy::I64),
+                            _ => f(i, &format!("w{}", i), Optional, list(STy::I16)),
+                        })
+                        .collect(),
+                ),
+            },
+            Decl {
+                name: "WideHolder".into(),
+                kind: DeclKind::Struct(vec![f(7, "before", Default, STy::I32), f(8, "w", Optional, named(0, "Wide")), f(9, "after", Default, STy::Bool), f(10, "ws", Default, list(named(0, "Wide"))), f(11, "last", Optional, STy::I16)]),
+            },
             Decl {
                 name: "Defaults".into(),
                 kind: DeclKind::Struct(vec![
+                    // integer literals on doubles beyond the 24-bit significand of an f32; enum defaults by number
+                    // on an enum whose members are not declared in ascending order
+                    fd(48, "d_int_wide", Default, STy::Double, Lit::Int(16777217)),
+                    fd(49, "d_int_wide2", Optional, STy::Double, Lit::Int(123456789)),
+                    fd(50, "ld_int_wide", Default, list(STy::Double), Lit::List(vec![Lit::Int(16777217), Lit::Int(-123456789)])),
+                    fd(51, "md_int_wide", Default, map(STy::String, STy::Double), Lit::Map(vec![(Lit::Str("k".into()), Lit::Int(4294967297))])),
+                    fd(52, "perm_num", Default, named(0, "Perm"), Lit::Int(1)),
+                    fd(53, "perm_num2", Optional, named(0, "Perm"), Lit::Int(2)),
+                    fd(54, "perm_list", Default, list(named(0, "Perm")), Lit::List(vec![Lit::Int(2), Lit::Int(1), Lit::Int(0), Lit::Int(3)])),
+                    fd(55, "perm_map", Default, map(named(0, "Perm"), STy::I32), Lit::Map(vec![(Lit::Int(1), Lit::Int(10)), (Lit::Int(2), Lit::Int(20))])),
                     // literal keys are IDL names, not Rust names; repeated list elements stay repeated
                     fd(35, "camel", Default, named(0, "Camel"), Lit::Map(vec![(Lit::Str("userName".into()), Lit::Str("bob".into())), (Lit::Str("retryCount".into()), Lit::Int(3)), (Lit::Str("plain".into()), Lit::Int(7)), (Lit::Str("HTTPCode".into()), Lit::Int(404))])),
                     fd(36, "dup", Default, list(STy::I32), Lit::List(vec![Lit::Int(1), Lit::Int(1), Lit::Int(2), Lit::Int(1)])),
@@ -254,6 +295,26 @@ pub fn thrift_docs() -> Vec<SDoc> {
             },
         ],
     };
+    let mut dfile = dfile;
+    dfile.decls.push(Decl {
+        name: "Finder".into(),
+        kind: DeclKind::Service(
+            vec![Method {
+                name: "find".into(),
+                oneway: false,
+                ret: Some(list(STy::String)),
+                args: vec![
+                    fd(1, "limit", Optional, STy::I32, Lit::Int(25)),
+                    fd(2, "fuzzy", Optional, STy::Bool, Lit::Bool(true)),
+                    fd(3, "q", Default, STy::String, Lit::Str("x".into())),
+                    fd(4, "lvl", Optional, named(0, "Level"), Lit::Int(5)),
+                    f(5, "plain", Optional, STy::I64),
+                ],
+                throws: vec![],
+            }],
+            None,
+        ),
+    });
     let doc1 = SDoc { files: vec![dfile] };
 
     // ---- document 2: two files whose namespaces differ in the first segment and agree in the
@@ -401,6 +462,15 @@ pub fn proto_docs() -> Vec<crate::pschema::PDoc> {
         fields.push(PField { number: 205, name: "kind_map".into(), ty: PTy::Enum(kind_ref.clone()), label: Label::Map(Sc::Bool) });
         fields.push(PField { number: 206, name: "one_msg".into(), ty: PTy::Message(inner_ref.clone()), label: Label::Oneof(1) });
         fields.push(PField { number: 207, name: "one_kind".into(), ty: PTy::Enum(kind_ref), label: Label::Oneof(1) });
+        // an enum whose declared numbers all fit one varint byte (open enums still carry any number)
+        let small_ref = Ref { file, path: vec!["All".into(), "Small".into()] };
+        fields.push(PField { number: 210, name: "smalls".into(), ty: PTy::Enum(small_ref.clone()), label: Label::Repeated });
+        fields.push(PField { number: 211, name: "small".into(), ty: PTy::Enum(small_ref), label: Label::Optional });
+        // a oneof whose members are declared out of numeric order, with a plain field in the gap
+        fields.push(PField { number: 302, name: "scr_a".into(), ty: PTy::Scalar(Sc::Int32), label: Label::Oneof(2) });
+        fields.push(PField { number: 307, name: "scr_b".into(), ty: PTy::Scalar(Sc::String), label: Label::Oneof(2) });
+        fields.push(PField { number: 304, name: "scr_c".into(), ty: PTy::Scalar(Sc::Bool), label: Label::Oneof(2) });
+        fields.push(PField { number: 303, name: "scr_gap".into(), ty: PTy::Scalar(Sc::Uint32), label: Label::Optional });
         fields.push(PField { number: 536870911, name: "last".into(), ty: PTy::Scalar(Sc::Fixed32), label: Label::Optional });
         // field numbers on both sides of every key-length border (16, 2^11, 2^18, 2^25)
         for (i, num) in [16u32, 17, 262143, 262144, 33554431, 33554432].into_iter().enumerate() {
@@ -408,7 +478,8 @@ pub fn proto_docs() -> Vec<crate::pschema::PDoc> {
         }
         fields.push(PField { number: 2047, name: "two_byte_key_edge".into(), ty: PTy::Scalar(Sc::Uint64), label: Label::Optional });
         fields.push(PField { number: 2048, name: "three_byte_key".into(), ty: PTy::Scalar(Sc::Sfixed64), label: Label::Repeated });
-        let all = PMessage { name: "All".into(), fields, oneofs: vec!["pick".into(), "other".into()], nested: vec![inner], enums: vec![kind] };
+        let small = PEnum { name: "Small".into(), values: vec![("SMALL_ZERO".into(), 0), ("SMALL_ONE".into(), 1), ("SMALL_TWO".into(), 2)] };
+        let all = PMessage { name: "All".into(), fields, oneofs: vec!["pick".into(), "other".into(), "scr".into()], nested: vec![inner], enums: vec![kind, small] };
         let tree = PMessage {
             name: "Tree".into(),
             fields: vec![
